@@ -11,6 +11,7 @@ package vharness
 
 import (
 	"fmt"
+	"runtime"
 	"sort"
 	"strconv"
 	"strings"
@@ -333,7 +334,7 @@ func epQueueDiff(c *RunCtx, prio bool, seed uint64) *Result {
 			run = Pick(r, 102400, 110000, 160000)
 		}
 		for i := 0; i < run; i++ {
-			push(val, Pick(r, 0, 0, 1, -1, 5, -(1 << 62), 1<<62, r.Intn(4)))
+			push(val, Pick(r, 0, 0, 1, -1, 5, -(1<<62), 1<<62, r.Intn(4)))
 			val++
 		}
 		if l := q.Len(); l != len(model) {
@@ -387,10 +388,17 @@ type burstCfg struct {
 	Preload bool // paused while loading, then resumed
 	Prods   int
 	Batch   bool
+	// MidAt >= 0 (preloaded FIFO, one producer): the job with that index is gated; when it executes,
+	// exactly MidAt+1 items have been taken from the queue; MidAdds further jobs are submitted at that
+	// quiescent point (a segment boundary on the consumer side while the write segment is full)
+	MidAt   int
+	MidAdds int
+	// Toggle: a goroutine keeps calling Pause and Resume while the backlog drains
+	Toggle bool
 }
 
 func (b burstCfg) String() string {
-	return fmt.Sprintf("burst wk=%v qk=%v n=%d preload=%v prods=%d batch=%v", b.WK, b.QK, b.N, b.Preload, b.Prods, b.Batch)
+	return fmt.Sprintf("burst wk=%v qk=%v n=%d preload=%v prods=%d batch=%v midAt=%d midAdds=%d toggle=%v", b.WK, b.QK, b.N, b.Preload, b.Prods, b.Batch, b.MidAt, b.MidAdds, b.Toggle)
 }
 
 func epBurstOrder(c *RunCtx, cfg burstCfg) *Result {
@@ -398,14 +406,22 @@ func epBurstOrder(c *RunCtx, cfg burstCfg) *Result {
 	e.Quiet = true
 	var order []int
 	var omu sync.Mutex
-	runs := make([]atomic.Int32, cfg.N)
+	total := cfg.N
+	if cfg.MidAt >= 0 {
+		total += cfg.MidAdds
+	}
+	runs := make([]atomic.Int32, total)
 	out := RunBubble(c.T, func(bid string) {
+		midGate := make(chan struct{})
 		s := NewSubject(cfg.WK, func(j varmq.Job[int]) Outcome {
 			d := j.Data()
 			runs[d].Add(1)
 			omu.Lock()
 			order = append(order, d)
 			omu.Unlock()
+			if d == cfg.MidAt {
+				<-midGate
+			}
 			return Outcome{Val: d}
 		}, 1)
 		q := s.Bind(cfg.QK, nil)
@@ -461,7 +477,71 @@ func epBurstOrder(c *RunCtx, cfg burstCfg) *Result {
 			}
 			s.W.Resume()
 		}
+		if cfg.Toggle {
+			// Pause and Resume race the dispatcher's status check / dequeue while the backlog drains
+			done := make(chan struct{})
+			go func() {
+				defer close(done)
+				for i := 0; i < 400; i++ {
+					s.W.Pause()
+					if i%3 == 0 {
+						runtime.Gosched()
+					}
+					s.W.Resume()
+					for y := 0; y < i%5; y++ {
+						runtime.Gosched()
+					}
+				}
+			}()
+			<-done
+		}
 		synctest.Wait()
+		if cfg.MidAt >= 0 {
+			omu.Lock()
+			taken := len(order)
+			omu.Unlock()
+			if taken != cfg.MidAt+1 {
+				e.Fail("C04", "fifo-order", "burst-mid", fmt.Sprintf("%s: %d jobs started when the gated job %d executes at concurrency 1", cfg, taken, cfg.MidAt))
+			}
+			for i := cfg.N; i < total; i++ {
+				if _, ok := q.Add(i, 0, ""); !ok {
+					e.Fail("C01", "rejected-on-open-queue", "", fmt.Sprintf("add %d rejected", i))
+				}
+			}
+			if p, want := q.Base.NumPending(), total-cfg.MidAt-1; p != want {
+				e.Fail("C17", "pending-at-q", "burst-mid", fmt.Sprintf("%s: NumPending=%d with %d jobs accepted and %d taken, expected %d", cfg, p, total, cfg.MidAt+1, want))
+			}
+			close(midGate)
+			// bounded progress instead of waiting for quiescence: a dispatcher that spins on a queue it cannot
+			// read from never lets the bubble settle. The bound is in scheduler yields of this goroutine
+			// since the last job started, not in time.
+			prev, idle, stalled := -1, 0, false
+			for {
+				omu.Lock()
+				n := len(order)
+				omu.Unlock()
+				if n >= total {
+					break
+				}
+				if n != prev {
+					prev, idle = n, 0
+				} else if idle++; idle > 4_000_000 {
+					stalled = true
+					break
+				}
+				runtime.Gosched()
+			}
+			if stalled {
+				e.Quiet = false
+				det := fmt.Sprintf("%s: after job %d finished and %d more jobs were submitted, %d of %d accepted jobs started and then nothing started during 4,000,000 scheduler yields; NumPending=%d NumProcessing=%d status=%s", cfg, cfg.MidAt, cfg.MidAdds, prev, total, s.W.NumPending(), s.W.NumProcessing(), s.W.Status())
+				e.Fail("C01", "lost", "burst-mid", det)
+				e.Fail("C03", "no-progress", "burst-mid", det)
+				e.Fail("C04", "fifo-order", "burst-mid-stalled", det)
+				s.W.Stop()
+				return
+			}
+			synctest.Wait()
+		}
 		s.W.Stop()
 		synctest.Wait()
 	})
@@ -471,7 +551,7 @@ func epBurstOrder(c *RunCtx, cfg burstCfg) *Result {
 	}
 	for i := range runs {
 		if n := runs[i].Load(); n != 1 {
-			e.Fail("C01", "not-exactly-once", "burst", fmt.Sprintf("%s: job %d ran %d times (executed %d of %d)", cfg, i, n, len(order), cfg.N))
+			e.Fail("C01", "not-exactly-once", "burst", fmt.Sprintf("%s: job %d ran %d times (executed %d of %d)", cfg, i, n, len(order), total))
 			break
 		}
 	}
@@ -483,6 +563,9 @@ func epBurstOrder(c *RunCtx, cfg burstCfg) *Result {
 		if cfg.QK == QFifo {
 			if prev, ok := last[p]; ok && prev > d {
 				e.Fail("C04", "fifo-order", "burst", fmt.Sprintf("%s: job %d executed at position %d after job %d of the same producer", cfg, d, pos, prev))
+				if cfg.Toggle {
+					e.Fail("C09", "order-after-resume", "burst-toggle", fmt.Sprintf("%s: job %d executed at position %d after job %d of the same producer: the backlog did not keep its order across Pause/Resume", cfg, d, pos, prev))
+				}
 				break
 			}
 			last[p] = d
@@ -510,13 +593,43 @@ func epBurstOrder(c *RunCtx, cfg burstCfg) *Result {
 	return rr
 }
 
+// toggleBurstPrograms: only the Pause/Resume-toggling variant of the burst family
+func toggleBurstPrograms(c *RunCtx, nq, nt int) {
+	burstOnlyToggle = true
+	burstPrograms(c, nq, nt)
+	burstOnlyToggle = false
+}
+
+var burstOnlyToggle bool
+
 func burstPrograms(c *RunCtx, nq, nt int) {
 	sizes := []int{1023, 1024, 1025, 1026, 2559, 2560, 2561, 3000, 4863, 4864, 4865, 6000}
+	only := burstOnlyToggle
 	for v := 0; v < c.Q(nq, nt); v++ {
 		c.Program(fmt.Sprintf("burst/%d", v), func(p *Prog) {
 			r := p.Rng
-			cfg := burstCfg{WK: Pick(r, WPlain, WErr, WResult), QK: Pick(r, QFifo, QFifo, QPrio), N: sizes[v%len(sizes)], Preload: r.Bool(), Prods: Pick(r, 1, 2, 3, 4, 8), Batch: r.Chance(25)}
-			if v%4 == 3 {
+			v := v
+			if only {
+				v = 6*v + 4
+			}
+			cfg := burstCfg{WK: Pick(r, WPlain, WErr, WResult), QK: Pick(r, QFifo, QFifo, QPrio), N: sizes[v%len(sizes)], Preload: r.Bool(), Prods: Pick(r, 1, 2, 3, 4, 8), Batch: r.Chance(25), MidAt: -1}
+			switch v % 6 {
+			case 1:
+				// the consumer stands at a segment boundary (1024, 1024+1536, ...) while the producer's
+				// segment is exactly full, then more arrives
+				cfg.QK, cfg.Preload, cfg.Prods, cfg.Batch = QFifo, true, 1, false
+				cfg.N = Pick(r, 2560, 2560, 6400, 1024, 2561)
+				cfg.MidAt = Pick(r, 1023, 1023, 2559, 1022, 1024)
+				if cfg.MidAt >= cfg.N {
+					cfg.MidAt = 1023
+				}
+				cfg.MidAdds = Pick(r, 1, 2, 5, 1600)
+			case 4:
+				cfg.QK, cfg.Preload, cfg.Batch = QFifo, true, false
+				cfg.N = Pick(r, 1500, 3000, 4000)
+				cfg.Toggle = true
+			}
+			if v%4 == 3 && cfg.MidAt < 0 && !cfg.Toggle {
 				// a batch that crosses the first segment boundary, then single submissions behind it
 				cfg.Batch, cfg.QK = true, QFifo
 				cfg.Prods = Pick(r, 1, 1, 2)
@@ -527,7 +640,9 @@ func burstPrograms(c *RunCtx, nq, nt int) {
 				cfg.QK = QFifo
 			}
 			o := ExploreOpts{Base: 1}
-			if cfg.N < 7000 && cfg.Prods > 1 {
+			if cfg.Toggle {
+				o = ExploreOpts{Base: 3, Noise: c.Q(6, 30), K: 3, Funcs: []string{"processNextJob", "Pause", "Resume"}, MaxCases: c.Q(40, 200)}
+			} else if cfg.N < 7000 && cfg.Prods > 1 {
 				// stalls inside Enqueue/Dequeue: the sites of the segment hand-over are first hit exactly at a boundary
 				o = ExploreOpts{Base: 2, K: 2, Funcs: []string{"Queue.Enqueue", "Queue.Dequeue", "NewChunk", "Chunk.Push", "Chunk.Pop"}, MaxCases: c.Q(24, 60)}
 			}
